@@ -7,18 +7,29 @@ from vlib.core import Raw, Some, Z, coq, main, standard_proof_steps, tree_lit
 PROP = "C03"
 
 
-def make_case(rng, quick=True):
+BIG_DIMS = (2**31 - 1, 2**30 + 7, 3 * 2**29, 2**24 + 1, 2**28)
+
+
+def make_case(rng, quick=True, big=None):
+    """big: None, or the name of a numpy integer type -- the dimensions are then handed to the
+    implementation as numpy integers of that type and made large enough for per-step products
+    beyond 2**63 (the reported costs must still be the exact integers of the definition)"""
     import cotengra as ctg
     inputs, output, size_dict = gen.rand_net(rng, nmin=2, nmax=7 if quick else 9)
     path = gen.rand_path(rng, len(inputs))
-    tree = ctg.ContractionTree.from_path(inputs, output, size_dict, path=path)
+    sd_impl = size_dict
+    if big:
+        import numpy as np
+        size_dict = {k: (1 if v == 1 else rng.choice(BIG_DIMS)) for k, v in size_dict.items()}
+        sd_impl = {k: getattr(np, big)(v) for k, v in size_dict.items()}
+    tree = ctg.ContractionTree.from_path(inputs, output, sd_impl, path=path)
     # remove (slice / project) a random ordered subset of indices
     present = sorted({ix for t in inputs for ix in t})
     sl = []
     if present and rng.random() < 0.6:
         for ix in rng.sample(present, rng.randint(1, min(3, len(present)))):
             if rng.random() < 0.3:
-                v = rng.randrange(size_dict[ix])
+                v = rng.randrange(min(size_dict[ix], 7))   # kept small: it is written as a nat literal
                 tree.remove_ind_(ix, project=v)
                 sl.append((ix, v))
             else:
@@ -44,6 +55,11 @@ def impl_tables(tree):
     return nested, rows, leafrows
 
 
+def spec_flops_beyond(rows, bound=2**63):
+    """does some single step of this case cost at least 2**63 (where fixed-width arithmetic wraps)?"""
+    return any(int(r[2][1][1]) >= bound for r in rows)
+
+
 def run(ctx):
     if not standard_proof_steps(ctx):
         return
@@ -55,7 +71,10 @@ def run(ctx):
     cases = []
     records = []
     for ci in range(ncases):
-        inputs, output, size_dict, path, tree, sl = make_case(rng, ctx.quick)
+        big = ("int64", "uint64", "int32", "int64")[(ci // 8) % 4] if ci % 8 == 5 else None
+        inputs, output, size_dict, path, tree, sl = make_case(rng, ctx.quick, big)
+        if big:
+            ctx.count("numpy_%s_dims" % big)
         feats = gen.net_features(inputs, output, size_dict)
         for f in feats:
             ctx.count(f)
@@ -94,6 +113,10 @@ def run(ctx):
         records.append({"inputs": inputs, "output": output, "size_dict": size_dict, "path": path, "removed": sl,
                         "note": "peak under a random traversal order"})
         rec = {"inputs": inputs, "output": output, "size_dict": size_dict, "path": path, "removed": sl}
+        if big:
+            rec["size_dict_type"] = "numpy." + big
+            if spec_flops_beyond(rows):
+                ctx.count("cost_beyond_2**63")
         records.insert(len(records) - 1, rec)
         ctx.case((inputs, output, tuple(sorted(size_dict.items())), path, tuple(sl)),
                  nontrivial=len(inputs) >= 3 and bool(feats & {"hyper", "repeat", "out_shared", "leaf_only"} or sl),
@@ -130,7 +153,7 @@ def run(ctx):
             if tree.peak_size(order) != pk:
                 bad = "peak differs: impl %r spec %r" % (tree.peak_size(order), pk)
         # ---- shapes actually produced while contracting ---------------------
-        if ci % 3 == 0 and not bad:
+        if ci % 3 == 0 and not bad and not big:
             seen = []
 
             def rec_einsum(eq, *xs):
@@ -190,6 +213,9 @@ def run(ctx):
         if bad:
             ctx.fail(bad, rec)
 
+    if not ctx.coverage["features"].get("cost_beyond_2**63"):
+        ctx.fail("generator floor: no case with numpy-integer dimensions reached a step cost of 2**63",
+                 {"generator": "make_case(big=...)"}, found_input=False)
     failing = ctx.coq_cases("c03", ["Net"], cases)
     for idx, label, val in failing:
         rec = dict(records[idx]) if idx < len(records) else {}
